@@ -207,7 +207,8 @@ def random_pick(a1: bool, b1: bool, c1: bool, d1: bool, t0: int, t1: int, t2: in
     return hx.end(True)
 
 
-def shuffle_perm(a1: bool, b1: bool, c1: bool, d1: bool, w1: bool, r0: int, r1: int, r2: int) -> bool:
+def shuffle_perm(a1: bool, b1: bool, c1: bool, d1: bool, w1: bool, r0: int, r1: int, r2: int,
+                 g0: bool, g1: bool, g2: bool, g3: bool, use_tag: bool) -> bool:
     """
     pre: r0 >= 0 and r1 >= 0 and r2 >= 0
     post: _
@@ -216,9 +217,13 @@ def shuffle_perm(a1: bool, b1: bool, c1: bool, d1: bool, w1: bool, r0: int, r1: 
     n = hx.P['n']
     m = Model(logger=NULL_LOGGER)
     m.random = SymRandom([r0, r1, r2])
-    res = _population(m, n, [(a1, False), (b1, False), (c1, False), (d1, False)], [0, 0, 0, 0])
+    tags = [1 if g else 0 for g in (g0, g1, g2, g3)]
+    res = _population(m, n, [(a1, False), (b1, False), (c1, False), (d1, False)], tags)
     tmpl = [T1] if w1 else []
-    spec = [a for a in res if (not w1) or T1 in a.components]
+    kw = {"tag": 1} if use_tag else {}
+    spec = [a for a in res if ((not w1) or T1 in a.components) and ((not use_tag) or a.tag == 1)]
+    if use_tag and len(spec) < n:
+        hx.reach('tag_filtered_shuffle')
     if hx.P.get('elsewhere'):
         # the environment queried is NOT model.environment (a holding container / the former environment)
         shown = Environment(m, id="FIELD")
@@ -227,9 +232,9 @@ def shuffle_perm(a1: bool, b1: bool, c1: bool, d1: bool, w1: bool, r0: int, r1: 
         shown.add_agent(x)
         queried = m.environment
         m.set_environment(shown)
-        got = queried.shuffle(*tmpl)
+        got = queried.shuffle(*tmpl, **kw)
     else:
-        got = m.environment.shuffle(*tmpl)
+        got = m.environment.shuffle(*tmpl, **kw)
     # Fisher-Yates as random.Random.shuffle performs it, driven by the same stream
     exp = list(spec)
     rs = [r0, r1, r2]
@@ -350,7 +355,7 @@ def obligations(tier):
           labels_for=lambda p: ("none",) if p["n"] == 0 else ("none", "last_member", "filtered_pick"), timeout=900,
           encoded=(Environment.get_random_agent, Environment.get_agents), bounds={"draw": "any int >= 0"}),
         X("shuffle_perm", shuffle_perm, parts=[{"n": n} for n in ((2, 3) if tier == "quick" else (1, 2, 3, 4))] + [{"n": 2, "elsewhere": True}],
-          labels=("shuffled", "filtered_shuffle"), timeout=900, encoded=(Environment.shuffle, Environment.get_agents)),
+          labels=("shuffled", "filtered_shuffle", "tag_filtered_shuffle"), timeout=900, encoded=(Environment.shuffle, Environment.get_agents)),
         X("after_history", after_history, parts=_hist(3 if tier == "quick" else 4), labels=("done",), timeout=300, group=4,
           encoded=enc + (Environment.add_agent, Environment.remove_agent)),
     ]
